@@ -1,6 +1,7 @@
 import Proofs.ExtractShape
 import Proofs.ExtractPerm
 import Proofs.ExtractSql
+import Proofs.ExtractReload
 
 /-!
   C14 — Component extraction mirrors the BridgePoint class model.
@@ -343,22 +344,31 @@ theorem schema_reload_serialized {u : Pyx.Sql.UC} {d : ClassDiagram} (names : Na
     (Pyx.Sql.MM.route_items_wf u _ hwf _ hr1) (Pyx.Sql.MM.route_items_wf u _ hwf _ hr2) hta htb
   exact ⟨ta, tb, sa, sb, hta, htb, hsa, hsb, hc⟩
 
-/- Not proved (full strength of the clause, kept as the statement to aim for): running the state machine of
-   `ModelLoader.build_metamodel` (`Pyx.Sql.build`, PyxModel/Sql/Build.lean: duplicate-class / unknown-class /
-   key-length / unknown-target-key checks, identifier dict, referential bookkeeping) on those statements,
+/-- BUILD LEVEL (builder-B's `reload_persistDatabase` instantiated with the extracted component): under `NamesOk`
+    and `ReloadOk` — key letters distinct after upper-casing, core type names are pyxtuml type names, identifier
+    numbers unique per class, every relationship in scope has its classes in scope, resolving O_REFs and kept
+    referred attributes (what `define_class` / `define_association` check when the component itself is built) —
+    the text `gen_sql_schema.main` writes exists, the loader accepts it, `ModelLoader.build_metamodel`
+    (`Pyx.Sql.build`: duplicate-class, unknown-class, key-length and unknown-target-key checks, identifier dict,
+    referential bookkeeping) succeeds on the parsed statements, and the metamodel it builds, seen through the
+    writers' eyes, is the extracted schema in canonical form: the classes in sorted order with their attribute
+    lists (type names upper-cased) and identifiers, the associations sorted by rel_id with cardinalities, keys
+    and phrases — "the SQL schema written for the component loads back to the same definitions".
+    (Identifiers without attributes never reach the schema: `identOf` drops them exactly as
+    `define_unique_identifier` returns early for them.) -/
+theorem schema_reload_build {u : Pyx.Sql.UC} {d : ClassDiagram} {comp : Option Nat} {drv : Bool}
+    (names : NamesOk u d) (ok : ReloadOk u d comp drv) :
+    ∃ text stmts bs,
+      Pyx.Sql.printItems u (((extract d comp drv).toMM).persistDatabase u) = some text ∧
+      Pyx.Sql.classify u text = .accepted stmts ∧ Pyx.Sql.build u stmts = .ok bs ∧
+      bs.toMM u = ((extract d comp drv).toMM).reloaded u ((extract d comp drv).toMM).assocsById :=
+  reload_build names ok
 
-     theorem schema_reload_build (names : NamesOk u d) (wf : WF d)
-         (upperKls : ((extract d comp drv).classes.map (fun c => u.upper c.kl.toList)).Nodup)
-         (closed : every association end names a class of the schema, its key lists have equal length and its
-                   target keys are attributes of the target class; identifier numbers are unique per class) :
-       ∃ stmts bs, itemsStmts u ((extract d comp drv).toMM.persistDatabase u) = some stmts ∧
-         Pyx.Sql.build u stmts = .ok bs ∧
-         bs.toMM u = { classes := ((extract d comp drv).toMM.sortedClasses u).map canonical,
-                       assocs  := (extract d comp drv).toMM.assocsById }
-
-   `schema_reload` is the part of it below `build`: text -> tokens -> statements -> the arguments of the define_*
-   calls.  The build-level equality is checked on every run by the property predicate (reload-differs) of
-   harness/prop_C14.py through the real xtuml.ModelLoader. -/
+/-- the build conditions are met by construction of the model: the metamodel of ANY extracted component under
+    `ReloadOk` is closed in the sense of the SQL build model -/
+theorem schema_reload_closed {u : Pyx.Sql.UC} {d : ClassDiagram} {comp : Option Nat} {drv : Bool}
+    (ok : ReloadOk u d comp drv) : ((extract d comp drv).toMM).Closed u :=
+  toMM_closed ok
 
 /-! ### non-vacuity: a concrete diagram meets the hypotheses, and the edits really change the result -/
 
@@ -448,6 +458,35 @@ theorem d0_namesOk (u : Pyx.Sql.UC) : NamesOk u d0 := by
     · simp only [DtKind.core.injEq] at hk; omega
     · simp at hk
     · simp at hk
+
+/-- d0's component can be rebuilt from its SQL: the build conditions hold for every view `u` of the non-ASCII
+    characters -/
+theorem d0_reloadOk (u : Pyx.Sql.UC) : ReloadOk u d0 (some 6) false := by
+  have up : ∀ w : Pyx.Sql.Text, Pyx.Sql.AsciiText w → u.upper w = w.map Pyx.Sql.asciiUpper :=
+    fun w h => Pyx.Sql.upper_ascii u w h
+  have hown : findClass d0 1 = some ⟨1, "OWN", [⟨11, "id", .base 102⟩, ⟨12, "name", .base 104⟩, ⟨13, "age", .derived 102⟩], [⟨0, [11]⟩], .pkg 5⟩ := by decide
+  have hdog : findClass d0 2 = some ⟨2, "DOG", [⟨21, "tag", .base 51⟩, ⟨22, "color", .base 50⟩, ⟨23, "owner_id", .ref 1 11⟩], [⟨0, [21]⟩, ⟨1, []⟩], .pkg 5⟩ := by decide
+  have hlsh : findClass d0 3 = some ⟨3, "LSH", [⟨31, "front", .ref 2 21⟩, ⟨32, "back", .ref 2 21⟩], [⟨0, [31, 32]⟩], .pkg 5⟩ := by decide
+  refine ⟨?_, ?_, by decide, ?_⟩
+  · simp only [d0, List.map_cons, List.map_nil]
+    rw [up "OWN".toList (by unfold Pyx.Sql.AsciiText; decide), up "DOG".toList (by unfold Pyx.Sql.AsciiText; decide),
+      up "LSH".toList (by unfold Pyx.Sql.AsciiText; decide)]
+    decide
+  · intro t ht n hk h1 h5
+    simp only [d0, List.mem_cons, List.not_mem_nil, or_false] at ht
+    rcases ht with rfl | rfl | rfl | rfl | rfl
+    · have : (upper "integer").toList = Gen.Persist.Ty.INTEGER.chars := by decide
+      rw [this, Pyx.Sql.tyOfName_chars]; rfl
+    · have : (upper "string").toList = Gen.Persist.Ty.STRING.chars := by decide
+      rw [this, Pyx.Sql.tyOfName_chars]; rfl
+    · simp only [DtKind.core.injEq] at hk; omega
+    · simp at hk
+    · simp at hk
+  · intro r hr _
+    simp only [d0, List.mem_cons, List.not_mem_nil, or_false] at hr
+    rcases hr with rfl | rfl
+    · exact ⟨_, _, hdog, hown, by decide, by decide, by decide⟩
+    · exact ⟨⟨_, _, hlsh, hdog, by decide, by decide, by decide⟩, ⟨_, _, hlsh, hdog, by decide, by decide, by decide⟩⟩
 
 /-- the metamodel the writers see for d0's component: three classes, three associations (R2 twice) -/
 example : ((extract d0 (some 6) false).toMM).classes.map (fun c => (c.kind, c.attrs.map (·.1), c.indices.map (·.2))) =
